@@ -1011,7 +1011,7 @@ for _i, _m in enumerate(_MODS + [FU]):
 VARIANTS += [
     V('C12-M30', 'M', ('C12',), CX, 'SpawnProcess.join', r"(\n        )self\._result_collector_thread_\.join\(\)\n", r"\1if self.exitcode == 0:\1    return\1self._result_collector_thread_.join()\n", ('C12-4',), note='seeded C12-r4m1 shape on the repaired tree: exit status 0 skips the outcome'),
     V('C12-M31', 'M', ('C12',), CX, 'SpawnProcess.join', r"(\n        )self\._result_collector_thread_\.join\(\)\n", r"\1self._result_collector_thread_.join()\1self._logger_thread_.join()\n", ('C12-4',), note='seeded C12-r4m2 shape: join also waits for the log channel'),
-    V('C12-E30', 'E', ALL, CX, 'SpawnProcess.join', r"(\n        )if self\._future_\.exception\(\):\n\s+raise self\._future_\.exception\(\)", r"\1exc = self._future_.exception()\1if exc is not None:\1    raise exc", note='outcome bound to a local'),
+    V('C12-E30', 'E', ALL, CX, 'SpawnProcess.join', r"(\n        )if self\._future_\.exception\(\) is not None:\n\s+raise self\._future_\.exception\(\)", r"\1exc = self._future_.exception()\1if exc is not None:\1    raise exc", note='outcome bound to a local'),
 ]
 
 VARIANTS += [
@@ -1392,4 +1392,20 @@ VARIANTS += [
 VARIANTS += [
     V('C04-M31', 'M', ('C04', 'C02'), SV, '_enter_server', r"try:\n\s+qout\.put\(x\)\n\s+except Exception as e:\n(?:\s+#[^\n]*\n)*\s+self\._q_out\.put\(\(x\[0\], RemoteException\(e\)\)\)\n\s+continue\n", "qout.put(x)\n", ('C04-11', 'C02-8'), note='D26 shape: the onboarding thread dies on an input that cannot be pickled'),
     V('C04-M32', 'M', ('C04',), SV, '_enter_server', r"self\._q_out\.put\(\(x\[0\], RemoteException\(e\)\)\)\n(\s+)continue\n", r"logger.error('%r', e)\n\1continue\n", ('C04-11',), note='the failure is logged but the request is not answered'),
+]
+
+VARIANTS += [
+    V('C14-M32', 'M', ('C14',), SP, 'Server._wrap_user_exc', r"return RemoteException\(exc\)", "return RemoteException(exc, get_remote_traceback(exc)) if is_remote_exception(exc) else RemoteException(exc)", ('C14-13',), note='seeded C14-f5m1 shape'),
+    V('C13-M31', 'M', ('C13', 'C14'), SP, 'BaseProxy._incref', r"(\n        server = self\._server\n)(        if server:\n            server\.incref\(None, self\._token\.id\)\n        else:\n            self\._dispatch\('incref'\)\n)(.*?exitpriority=10,\n        \)\n)", r"\1\3\2", ('C13-1', 'C14-12'), note='seeded C13-f5m2 shape: finaliser before the increment'),
+]
+
+VARIANTS += [
+    V('C12-M35', 'M', ('C12',), CX, 'SpawnProcess.join', r"if self\._future_\.exception\(\) is not None:", "if self._future_.exception():", ('C12-4',), note='D27 shape: outcome tested by truthiness'),
+    V('C12-M36', 'M', ('C12',), TH, 'Thread.join', r"if self\._future_\.exception\(\) is not None:\n(\s+)raise self\._future_\.exception\(\)", r"exc = self._future_.exception()\n        if exc:\n\1raise exc", ('C12-4',), note='D27 shape through a local'),
+]
+
+VARIANTS += [
+    V('C11-M31', 'M', ('C11',), SL, 'SequentialServlet.start', r"for ss in self\._servlets\[:i\]:", "for ss in self._servlets[i - 1 :: -1]:", ('C11-1',), note='seeded C11-f5m1 shape'),
+    V('C11-E31', 'E', ALL, SL, 'SequentialServlet.start', r"for ss in self\._servlets\[:i\]:", "for ss in reversed(self._servlets[:i]):", note='rollback in reverse order over the same prefix'),
+    V('C11-M32', 'M', ('C11', 'C05', 'C07', 'C03'), ST, 'fifo_stream', r"tasks = SingleLane\(capacity \+ 1\)", "tasks = SingleLane(capacity)", ('C11-10', 'C05-4', 'C07-5', 'C03-9'), note='seeded C11-f5m2 shape'),
 ]
